@@ -180,7 +180,7 @@ func props() map[string]Prop {
 			Units: []Unit{
 				{Name: "cli", Pkg: "cmd/gotelemetry", Harness: "cmd_gotelemetry", Run: "^TestVerifC19$", Timeout: 30 * time.Minute},
 			},
-			Assume: []string{"the command is the package's main() reached by re-executing the test binary, with XDG_CONFIG_HOME/HOME redirected", "directories and symlinks whose names match the data patterns are don't-care (their targets and contents must stay)", "the current date is bracketed by two clock reads around the invocation"},
+			Assume: []string{"the command is the package's main() reached by re-executing the test binary, with XDG_CONFIG_HOME/HOME redirected", "directories whose names match the data patterns are a don't-care (their contents must stay); a symbolic link with a data-file name is a data file for every reader, so clean removes the link (its target must stay)", "the current date is bracketed by two clock reads around the invocation"},
 		},
 		{
 			ID: "C16", Level: "exploration",
